@@ -138,6 +138,83 @@ def scenario(g, i):
     return out, a, b
 
 
+LIB_DEFAULT = ["Snake", "Kebab", "Camel", "Pascal", "ScreamingSnake", "Train"]
+
+
+def enhanced_stream(R, H, M, g, out, quick):
+    """Model/Enhanced.v (identifier extractor + find_enhanced_matches) against compound_scanner.rs on generated ASCII content:
+    every field of every match, for several style lists, with and without additional candidate lines."""
+    r = g.r
+    stats = {"identifier_cases": 0, "enhanced_cases": 0, "identifiers": 0, "matches": 0, "exact": 0, "compound": 0, "with_lines": 0,
+             "style_lists": {}}
+    frag = ["Old Name here", "The {T} Thing", "{s}-", "{s}.", "a.{s}.b", "lo..get_{s}_hi", "x.{c}.y", "{p}2", "{S}_X", "Get-{t}-X {T}",
+            "{s} {s}_y", "{T} {t}", "{k}--{k}", "__{s}__", "\t{s}\t", "{c}{P}", "v2_{s}_3d", "{s}s", "{P}s", "{f}", "{F}"]
+    for i in range(150 if quick else 6000):
+        a, b = g.term_pair()
+        sets = [list(gen.DEFAULT_STYLES), LIB_DEFAULT, [r.choice(gen.STYLES14)], list(gen.STYLES14),
+                [x for x in gen.DEFAULT_STYLES if x != "Title"], LIB_DEFAULT + ["Title", "Dot"], r.sample(gen.STYLES14, r.randint(1, 6)), []]
+        k = r.randrange(len(sets))
+        styles = sets[k]
+        stats["style_lists"][str(k)] = stats["style_lists"].get(str(k), 0) + 1
+        text = g.content(a, styles=gen.STYLES14, nlines=r.randint(0, 5), p_match=0.7).decode("utf-8")
+        fm = {"s": gen.render(a, "Snake"), "S": gen.render(a, "ScreamingSnake"), "c": gen.render(a, "Camel"), "P": gen.render(a, "Pascal"),
+              "p": gen.render(a, "Pascal"), "k": gen.render(a, "Kebab"), "t": gen.render(a, "Train"), "T": gen.render(a, "Title"),
+              "f": gen.render(a, "LowerFlat"), "F": gen.render(a, "UpperFlat")}
+        extra_lines = [r.choice(frag).format(**fm) for _ in range(r.randint(0, 3))]
+        eol = r.choice(["\n", "\r\n"])
+        text = text + eol.join(extra_lines) + (eol if r.random() < 0.6 else "")
+        content = "".join(ch if ord(ch) < 128 else "e" for ch in text).encode()
+        # identifiers
+        hr = H.ask({"op": "identifiers", "s": core.hx(content), "content": core.hx(content), "styles": styles})
+        mr = M.ask("identifiers", styles, content)
+        stats["identifier_cases"] += 1
+        R.case(("ident", tuple(styles), content), nontrivial=bool(hr.get("ok")))
+        if "ok" in hr:
+            impl = [(x[0], x[1], bytes.fromhex(x[2])) for x in hr["ok"]]
+            mod = [(int(x[0]), int(x[1]), core.atom_bytes(x[2])) for x in mr] if isinstance(mr, list) and (not mr or isinstance(mr[0], list)) else ("ERR", mr)
+            stats["identifiers"] += len(impl)
+            if impl != mod:
+                out["dis"].append({"why": "IdentifierExtractor::find_all differs from the model", "styles": styles,
+                                   "content": content.decode(), "impl": repr(impl)[:500], "model": repr(mod)[:500]})
+        else:
+            out["fail"].append({"why": "IdentifierExtractor::find_all panicked: " + str(hr)[:200], "content": content.decode(), "styles": styles})
+        # the whole matcher
+        typed = ["Snake", "Snake", "Kebab", "Camel", "Pascal", "ScreamingSnake", "Title", "LowerSentence"]
+        search, replace = gen.render(a if r.random() < 0.85 else a[:1], r.choice(typed)), gen.render(b, r.choice(typed))
+        req = {"op": "enhanced_matches", "content": core.hx(content), "search": core.hx(search), "replace": core.hx(replace),
+               "styles": styles, "plurals": r.random() < 0.5}
+        lines = None
+        if r.random() < 0.4:
+            lines = sorted(set(r.randint(0, 9) for _ in range(r.randint(0, 4))))
+            req["lines"] = lines
+            stats["with_lines"] += 1
+        er = H.ask(req)
+        stats["enhanced_cases"] += 1
+        R.case(("enh", tuple(styles), content, search, replace, repr(lines)), nontrivial=bool(er.get("ok")))
+        if "ok" not in er:
+            out["fail"].append({"why": "find_enhanced_matches panicked: " + str(er)[:200], "content": content.decode(), "styles": styles,
+                                "search": search, "replace": replace})
+            continue
+        keys = [bytes.fromhex(kv[0]) for kv in er["table"]]
+        em = M.ask("enhanced", content, search.encode(), replace.encode(), keys, styles, None if lines is None else ["some", lines])
+        impl = [(x[0], x[1], x[2], x[3], bytes.fromhex(x[4]), bytes.fromhex(x[5])) for x in er["ok"]]
+        mod = [(int(x[0]), int(x[1]), int(x[2]), int(x[3]), core.atom_bytes(x[4]), core.atom_bytes(x[5])) for x in em] \
+            if isinstance(em, list) and (not em or isinstance(em[0], list)) else ("ERR", em)
+        stats["matches"] += len(impl)
+        stats["exact"] += sum(1 for x in impl if x[4] == x[5])
+        stats["compound"] += sum(1 for x in impl if x[4] != x[5])
+        if impl != mod:
+            out["dis"].append({"why": "find_enhanced_matches differs from the model", "styles": styles, "search": search, "replace": replace,
+                               "lines": lines, "content": content.decode(), "impl": repr(impl)[:600], "model": repr(mod)[:600]})
+        # the proved consequences, observed on the real output as well: ordered, disjoint, inside the file
+        for x, y in zip(impl, impl[1:]):
+            if not (x[2] < x[3] <= y[2]):
+                out["fail"].append({"why": "the matches handed to generate_hunks overlap or are out of order", "content": content.decode(),
+                                    "styles": styles, "search": search, "replace": replace, "matches": repr(impl)[:600]})
+                break
+    return stats
+
+
 def run(R):
     R.trusted += ["Coq 8.16.1 kernel", "harness (scan_tree, simple_plan_tree, find_matches, is_boundary)", "extraction + modelrun.ml",
                   "Python oracle (independent)"]
@@ -247,9 +324,11 @@ def run(R):
                 out["by_planner"][label] = out["by_planner"].get(label, 0) + 1
                 nh = check_plan(R, M, td, plan, wt, label, out, {"tree": cli.tree_json(tree), "search": search, "replace": replace})
                 R.case((label, search, replace, i), nontrivial=nh > 0)
+    est = enhanced_stream(R, H, M, g, out, quick)
     H.close()
     M.close()
-    R.coverage["input_distribution"] = {"plans": out["plans"], "hunks_checked": out["hunks"], "by_planner": out["by_planner"]}
+    R.coverage["input_distribution"] = {"plans": out["plans"], "hunks_checked": out["hunks"], "by_planner": out["by_planner"],
+                                        "enhanced_matcher_stream": est}
     R.disagreements = len(out["dis"])
     for f in out["fail"][:3]:
         R.violation(f["why"], {"kind": "impl_failure", **f})
